@@ -24,6 +24,8 @@ structure Accepted (ops : Ops DT Val) (c : ClassDesc DT Val) (cfg : Cfg Val) (i 
   mpErrs : (applyModProps c.modProps cfg).errs = []
   poRaised : (applyParams ops c.params cfg).raised = false
   poErrs : (applyParams ops c.params cfg).errs = []
+  cmRaised : (applyCommands ops c.otherNames cfg).raised = false
+  cmErrs : (applyCommands ops c.otherNames cfg).errs = []
   left : leftover c cfg = []
   mandatory : checkMandatory c.modProps (applyModProps c.modProps cfg).values = []
   datatypes : checkDatatypes ops (applyParams ops c.params cfg).insts = []
@@ -45,8 +47,8 @@ theorem accepted_of_ok (ops : Ops DT Val) (c : ClassDesc DT Val) (cfg : Cfg Val)
         simp only [Bool.or_eq_true, not_or, Bool.not_eq_true] at hr
         simp only [phase1, List.append_eq_nil_iff] at h1
         simp only [phase2, List.append_eq_nil_iff] at h2
-        obtain ⟨⟨e1, e2⟩, e3⟩ := h1
-        refine ⟨hr.1, e1, hr.2, e2, ?_, h2.1, h2.2, ?_⟩
+        obtain ⟨⟨⟨e1, e2⟩, ec⟩, e3⟩ := h1
+        refine ⟨hr.1.1, e1, hr.1.2, e2, hr.2, ec, ?_, h2.1, h2.2, ?_⟩
         · cases hl : leftover c cfg with
           | nil => rfl
           | cons a l => simp [hl, unknownErr] at e3
